@@ -141,7 +141,15 @@ def _wrap_einsum_from_ctx(expr: Array,
 
 def _can_hlo_be_distributed(hlo: HighLevelOp) -> bool:
     from pytato.raising import BinaryOp, BinaryOpType
+
+    def is_boolean_array(x: ArrayOrScalar) -> bool:
+        return isinstance(x, Array) and x.dtype.kind == "b"
+
     return (isinstance(hlo, BinaryOp)
+            # an einsum of a boolean array is computed in boolean ("any") and
+            # is not the einsum of the array's 0/1 values
+            and not is_boolean_array(hlo.x1)
+            and not is_boolean_array(hlo.x2)
             and ((hlo.binary_op == BinaryOpType.MULT
                   and (np.isscalar(hlo.x1) or np.isscalar(hlo.x2)))
                  # array / scalar, not scalar / array: an einsum is not
